@@ -2,7 +2,7 @@ package main
 
 func init() {
 	registerProp(PropSpec{ID: "C05",
-		Rules: []string{"PAIR.frame", "PAIR.condition", "PAIR.nesting", "PAIR.package", "PAIR.load-package", "PAIR.evalctx", "PAIR.terminal-reset", "PAIR.loc"},
+		Rules: []string{"PAIR.frame", "PAIR.condition", "COND.stack-shape", "CENSUS.Runtime.conditionStack", "CENSUS.CallStack.Frames", "CENSUS.Runtime.evalNesting", "CENSUS.Runtime.evalDepth", "PAIR.nesting", "PAIR.package", "PAIR.load-package", "PAIR.evalctx", "PAIR.terminal-reset", "PAIR.loc"},
 		Explanation: "per-evaluation runtime state (frames, condition stack, eval nesting, current package, evaluation context, terminal flag, location) is released/restored by a defer on every exit, including recovered panics",
 		Assumptions: []string{"Go defers run on panic unwinding", "go/types + go/cfg model of the working tree"},
 		ThoroughConfigs: []string{"elpscheck"},
@@ -37,9 +37,15 @@ func init() {
 		ThoroughConfigs: []string{"windows", "elpscheck"},
 	})
 	registerProp(PropSpec{ID: "C06",
-		Rules: []string{"CARVE.ignore-errors", "CARVE.handler-bind", "RETHROW.identity", "PANICMARK.shape", "PAIR.condition",
+		Rules: []string{"CARVE.ignore-errors", "CARVE.handler-bind", "RETHROW.identity", "PANICMARK.shape", "PANICMARK.recover-wraps", "COND.stack-shape", "PAIR.condition",
 			"CENSUS.CallStack.GoStack", "CENSUS.Runtime.conditionStack", "CALLERS.PushCondition", "CALLERS.PopCondition"},
 		Explanation: "handler selection and the host-panic carve-out as control-flow facts",
+		Assumptions: []string{"go/types + go/cfg model of the working tree"},
+		ThoroughConfigs: []string{"elpscheck"},
+	})
+	registerProp(PropSpec{ID: "C01",
+		Rules: []string{"ERR.same"},
+		Explanation: "error discipline of the evaluator kernel",
 		Assumptions: []string{"go/types + go/cfg model of the working tree"},
 		ThoroughConfigs: []string{"elpscheck"},
 	})
